@@ -313,7 +313,52 @@ def _solve(base, neg, timeout_ms):
         s.add(neg)
     t = time.time()
     r = s.check()
-    return s, str(r), time.time() - t
+    dt = time.time() - t
+    if neg is not None and dt < 5:
+        cross_check(s, str(r))
+    return s, str(r), dt
+
+
+XCHECK = dict(left=0, done=0, agree=0, skipped=0, errors=[])
+
+
+def cross_check(solver, verdict):
+    """re-decide the same query with the independent z3 4.8.12 binary (and cvc5 when it accepts the file)"""
+    import shutil
+    import tempfile
+    if XCHECK['left'] <= 0 or verdict not in ('sat', 'unsat'):
+        return
+    XCHECK['left'] -= 1
+    text = '(set-logic QF_BV)\n' + solver.to_smt2()
+    with tempfile.NamedTemporaryFile('w', suffix='.smt2', dir=os.path.join(VERIF, 'replays'), delete=False) as f:
+        f.write(text)
+        path = f.name
+    try:
+        for tool, cmd in (('z3-4.8.12', ['/usr/bin/z3', '-T:20', path]), ('cvc5', ['cvc5', '--tlimit=20000', path])):
+            if not shutil.which(cmd[0]):
+                continue
+            try:
+                p = subprocess.run(cmd, capture_output=True, text=True, timeout=30)
+            except subprocess.TimeoutExpired:
+                XCHECK['skipped'] += 1
+                continue
+            out = p.stdout.strip().splitlines()
+            ans = out[0].strip() if out else ''
+            if '(error' in p.stdout or ans not in ('sat', 'unsat'):
+                XCHECK['skipped'] += 1          # unsupported construct / timeout in the other solver: no verdict to compare
+                continue
+            XCHECK['done'] += 1
+            if ans == verdict:
+                XCHECK['agree'] += 1
+            else:
+                XCHECK['errors'].append('%s answered %s where z3 %s answered %s (%s)' % (tool, ans, z3.get_version_string(), verdict, path))
+                return
+    finally:
+        if not XCHECK['errors']:
+            try:
+                os.unlink(path)
+            except OSError:
+                pass
 
 
 def extract_inputs(model):
@@ -356,6 +401,7 @@ def run_job(job, packages, known, replay_dir):
                 rec['kernels'][p.pkg + '.' + k] = rec['kernels'].get(p.pkg + '.' + k, 0) + v
         rec['wall_s'] = round(time.time() - t0, 3)
         return rec
+    XCHECK.update(left=job.get('xcheck', 1), done=0, agree=0, skipped=0, errors=[])
     stack = [[]]
     goal_names = {}
     stop = False            # one reproduced violation per harness instance is enough: stop exploring it
@@ -459,6 +505,9 @@ def run_job(job, packages, known, replay_dir):
         rec['errors'].append('harness exception %s: %s' % (type(e).__name__, e))
         rec['trace'] = traceback.format_exc()[-2500:]
     rec['obligations'] = list(goal_names.values())
+    rec['xcheck'] = dict(done=XCHECK['done'], agree=XCHECK['agree'], skipped=XCHECK['skipped'])
+    for e in XCHECK['errors']:
+        rec['errors'].append('solver cross-check: ' + e)
     for p in packages.values():
         rec['forked_sites'] += sorted('%s:%s' % s for s in p.interp.forked_sites)
         for k, v in p.interp.kernels_used.items():
